@@ -1,11 +1,15 @@
-//gobatch:{"decls": ["var X_v = X_U{3}.Get()", "type X_U struct {\n\ta int\n}", "func (u X_U) Get() int {\n\treturn u.a\n}", "func X_main() {\n\trec.E(1, X_v)\n}"], "entry": "X_main", "one_eval": true}
+//gobatch:{"decls": ["var X_v = X_U{3}", "func X_main() {\n\trec.E(1, X_v.Get())\n}", "type X_U struct {\n\ta int\n}", "func (u X_U) Get() int {\n\treturn u.a\n}"], "entry": "X_main", "one_eval": true}
 package p
 
 import "verif/rec"
 
 var _ = rec.E
 
-var X_v = X_U{3}.Get()
+var X_v = X_U{3}
+
+func X_main() {
+	rec.E(1, X_v.Get())
+}
 
 type X_U struct {
 	a int
@@ -13,8 +17,4 @@ type X_U struct {
 
 func (u X_U) Get() int {
 	return u.a
-}
-
-func X_main() {
-	rec.E(1, X_v)
 }
